@@ -22,7 +22,24 @@
 //! properties), the JSON of the `as-is` load, outside the two declared
 //! wall-clock fields. A second full krill instance is started on another
 //! copy and its API views must equal those of the running instance.
-//! Any error or panic while loading is a violation.
+//! Any error or panic while loading is a violation; a load that does not
+//! return within 90 s makes the watchdog exit the worker with an in-flight
+//! marker `replay-hangs:<stage>`.
+//!
+//! Tolerated, with counters:
+//! * `masked_field_hits`: the two declared wall-clock fields
+//!   `CertAuth.resources.<class>.last_key_change` and
+//!   `CertAuth.routes.map.<payload>.since`;
+//! * `masked_delta_element_order`: the order of the element lists inside a
+//!   stored RRDP delta of RepositoryContent (filled by iterating hash maps
+//!   in `RrdpServer::apply_rrdp_updated`; not shown by any API view; the
+//!   lists are compared as sets). `--strict-delta-order 1` reports it as
+//!   `stored-delta-element-order:RepositoryContent`;
+//! * `api_list_order_only_differences`: API views that differ only in the
+//!   order of list elements (lists collected from hash maps).
+//!
+//! `--tamper drop-command|unknown-event|drop-wal|stale-snapshot` damages the
+//! COPIES before loading (self-test that the oracle fires).
 
 use std::collections::{BTreeMap, BTreeSet};
 use std::path::{Path, PathBuf};
@@ -184,6 +201,8 @@ struct Diff {
     path: Vec<String>,
     left: String,
     right: String,
+    /// Both sides when they are strings (for semantic comparison).
+    strings: Option<(String, String)>,
 }
 
 fn short(v: Option<&Value>) -> String {
@@ -213,6 +232,7 @@ fn diff_values(
                     (Some(p), Some(q)) => diff_values(p, q, path, out),
                     (p, q) => out.push(Diff {
                         path: path.clone(), left: short(p), right: short(q),
+                        strings: None,
                     }),
                 }
                 path.pop();
@@ -224,6 +244,7 @@ fn diff_values(
                     path: path.clone(),
                     left: format!("array of {}: {}", x.len(), short(Some(a))),
                     right: format!("array of {}: {}", y.len(), short(Some(b))),
+                    strings: None,
                 });
                 return
             }
@@ -238,6 +259,10 @@ fn diff_values(
                 out.push(Diff {
                     path: path.clone(), left: short(Some(a)),
                     right: short(Some(b)),
+                    strings: match (a.as_str(), b.as_str()) {
+                        (Some(x), Some(y)) => Some((x.into(), y.into())),
+                        _ => None,
+                    },
                 });
             }
         }
@@ -315,6 +340,69 @@ fn sort_arrays(v: &Value) -> Value {
             o.iter().map(|(k, v)| (k.clone(), sort_arrays(v))).collect()
         ),
         _ => v.clone(),
+    }
+}
+
+/// Parses the textual form of one family of a resource set into merged
+/// ranges. `None` if the text is not of that form.
+fn resource_ranges(family: &str, text: &str) -> Option<Vec<(u128, u128)>> {
+    fn ip(s: &str) -> Option<(u128, u32)> {
+        match s.parse::<std::net::IpAddr>().ok()? {
+            std::net::IpAddr::V4(a) => Some((u32::from(a) as u128, 32)),
+            std::net::IpAddr::V6(a) => Some((u128::from(a), 128)),
+        }
+    }
+    let mut ranges = vec![];
+    for item in text.split(',').map(|s| s.trim()).filter(|s| !s.is_empty()) {
+        let range = match family {
+            "asn" => {
+                let asn = |s: &str| s.trim().strip_prefix("AS")?
+                    .parse::<u32>().ok().map(|x| x as u128);
+                match item.split_once('-') {
+                    Some((a, b)) => (asn(a)?, asn(b)?),
+                    None => { let a = asn(item)?; (a, a) }
+                }
+            }
+            "ipv4" | "ipv6" => {
+                if let Some((a, len)) = item.split_once('/') {
+                    let (a, bits) = ip(a)?;
+                    let len: u32 = len.parse().ok()?;
+                    if len > bits { return None }
+                    let host = bits - len;
+                    let mask = if host == 0 { 0 }
+                        else if host >= 128 { u128::MAX }
+                        else { (1u128 << host) - 1 };
+                    (a & !mask, a | mask)
+                } else if let Some((a, b)) = item.split_once('-') {
+                    (ip(a.trim())?.0, ip(b.trim())?.0)
+                } else {
+                    let (a, _) = ip(item)?;
+                    (a, a)
+                }
+            }
+            _ => return None,
+        };
+        if range.0 > range.1 { return None }
+        ranges.push(range);
+    }
+    ranges.sort();
+    let mut merged: Vec<(u128, u128)> = vec![];
+    for (lo, hi) in ranges {
+        match merged.last_mut() {
+            Some(last) if lo <= last.1.saturating_add(1) => {
+                if hi > last.1 { last.1 = hi }
+            }
+            _ => merged.push((lo, hi)),
+        }
+    }
+    Some(merged)
+}
+
+/// Whether two different texts of a resource family denote the same set.
+fn same_resources(family: &str, a: &str, b: &str) -> bool {
+    match (resource_ranges(family, a), resource_ranges(family, b)) {
+        (Some(x), Some(y)) => x == y,
+        _ => false,
     }
 }
 
@@ -665,11 +753,23 @@ impl C06Monitor {
         r.eval();
         r.count(&format!("cmp_{ty}"), 1);
         let mut diffs = vec![];
-        if ty == "RepositoryContent" && !self.strict_delta_order {
+        if ty == "RepositoryContent" {
             let (mut a, mut b) = (reference.clone(), other.clone());
             let hits = unorder_delta_elements(&mut a, &mut b);
             if hits > 0 {
                 r.count("masked_delta_element_order", hits);
+                if self.strict_delta_order {
+                    issues.push((
+                        "stored-delta-element-order:RepositoryContent".into(),
+                        format!(
+                            "RepositoryContent '{handle}', load mode \
+                             '{mode}': {hits} stored RRDP delta(s) list the \
+                             same elements in another order than the \
+                             {ref_name} (RrdpServer::apply_rrdp_updated \
+                             fills them by iterating hash maps)"
+                        ),
+                    ));
+                }
             }
             diff_values(&a, &b, &mut vec![], &mut diffs);
         } else {
@@ -898,10 +998,27 @@ impl C06Monitor {
                         }
                         let mut diffs = vec![];
                         diff_values(&sa, &sb, &mut vec![], &mut diffs);
+                        // the same resource set written in two ways (see
+                        // `same_resources`) gets a signature of its own
+                        let rendering_only = !diffs.is_empty()
+                            && diffs.iter().all(|d| {
+                                match (d.path.last(), &d.strings) {
+                                    (Some(f), Some((x, y))) => {
+                                        same_resources(f, x, y)
+                                    }
+                                    _ => false,
+                                }
+                            });
                         if let Some(d) = diffs.first() {
                             issues.push((
+                                if rendering_only {
+                                    r.count("resource_rendering_differences", 1);
+                                    format!("api-differs:{kind}:resources:\
+                                             same-set-rendered-differently")
+                                } else {
                                 format!("api-differs:{kind}:{}",
-                                        general_path(&d.path, &names)),
+                                        general_path(&d.path, &names))
+                                },
                                 format!("view {k} at {}: running instance \
                                          shows {}, a fresh instance on the \
                                          same stored history shows {}",
